@@ -136,6 +136,20 @@ def step (st : DState) (line : String) : DState × String :=
       | _, _ => ""
     (st, o ++ extra)
   | "schema" :: _ => (st, Sonic.Model.Schema.runLine toks)
+  | "schema-prep1" :: alloc :: hexE :: hexTs | "schema-prep2" :: alloc :: hexE :: hexTs | "schema-prep3" :: alloc :: hexE :: hexTs =>
+    -- the existing document is first changed through the mutation API: every object-valued member of the root object is emptied
+    -- member by member (it keeps its capacity - and its lookup map, if any); its VALUE is then `{}`.  ParseSchema is judged on that value.
+    (st, if hexTs.isEmpty || !(alloc == "pool" || alloc == "simple" || alloc == "track") then "bad-op" else
+      match Sonic.Model.Schema.unhex hexE, hexTs.mapM Sonic.Model.Schema.unhex with
+      | some ex, some texts =>
+        match Sonic.Spec.Json.parse ex with
+        | .error _ => "bad-input"
+        | .ok e =>
+          let e' : Sonic.Spec.JVal := match e with
+            | .obj kvs => .obj (kvs.map fun kv => match kv.2 with | .obj _ => (kv.1, .obj []) | v => (kv.1, v))
+            | v => v
+          " | ".intercalate (Sonic.Model.Schema.runTexts (some e') (some e') texts) ++ (if alloc == "track" then " ledger=ok" else "")
+      | _, _ => "bad-op")
   | "schema-copy" :: rest => (st, Sonic.Model.Schema.runLine ("schema" :: rest))  -- the copy read-back is judged against the final tree
   | "lazy" :: _ => (st, Sonic.Model.Lazy.runLine st.W toks)
   | "ser" :: _ => (st, Sonic.Model.Serialize.runLine st.W toks)
